@@ -328,7 +328,6 @@ func (ex *Exec) enterLoop(fr *Frame, lp *loopRec, reach string, st *State) (stri
 		d2.wlog = &writeLog{}
 		f2 := fr.cloneRegs()
 		s2 := st.clone()
-		d2.havocCells(f2, s2, cells)
 		for _, c := range sortedKeys(compsWritten) {
 			old := d2.comp(s2, c, d2.compSort[c])
 			s2.heap[c] = d2.sc.fresh("hv", d2.compSort[c])
@@ -340,6 +339,7 @@ func (ex *Exec) enterLoop(fr *Frame, lp *loopRec, reach string, st *State) (stri
 				}
 			}
 		}
+		d2.havocCells(f2, s2, cells)
 		// the annotated invariants hold at the head of every iteration (they are
 		// proved on entry and preserved, by induction together with the frame derived
 		// here): they may be used to show that a written object is one allocated
@@ -488,7 +488,8 @@ func (ex *Exec) enterLoop(fr *Frame, lp *loopRec, reach string, st *State) (stri
 
 	// ---- havoc
 	hst := st.clone()
-	ex.havocCells(fr, hst, cells)
+	// (the cells are havocked after the components: a local slice or pointer at the loop head is
+	// well-formed with respect to the allocation state of the loop head, not of the loop entry)
 	for _, c := range sortedKeys(compsWritten) {
 		srt := ex.compSort[c]
 		old := ex.comp(hst, c, srt)
@@ -526,6 +527,7 @@ func (ex *Exec) enterLoop(fr *Frame, lp *loopRec, reach string, st *State) (stri
 		}
 		hst.heap[c] = ex.sc.define("hvp", srt, t)
 	}
+	ex.havocCells(fr, hst, cells)
 	ex.envlogFrame(st, hst)
 	// values reachable after havoc are still well-formed: re-assume ranges of
 	// scalar leaves on load (done in load); map iteration exhaustion facts
